@@ -69,7 +69,8 @@ def run(ctx):
     thorough = ctx.tier == "thorough"
     for g in (["i11", "i23", "i31", "i43", "i47", "i59", "i71", "ed37", "ed53", "ed109"] if thorough else ["i23", "ed53"]):
         model(ctx, g, "triples")
-    for g in (["i11", "i23", "i47", "ed37", "ed53", "i263", "ed149"] if thorough else ["i23", "ed37"]):
+    # scalars mode is q^2 * (3q+1) * |SCALARS| cases: groups up to q = 29 only
+    for g in (["i11", "i23", "i31", "i43", "i47", "i59", "i71", "ed37", "ed53", "ed109"] if thorough else ["i23", "ed37"]):
         q = toy_order(g)
         model(ctx, g, "scalars", scalars=sorted({0, 1, q - 1, q, q + 1, 2 * q, 3 * q, q + 7}))
     uni = Universe()
